@@ -14,7 +14,7 @@ type ForInfo struct {
 	Blocks, Instances, MaxDepth                                     int
 	Nested, ZeroCount, EquCount, CounterArith, Sequential           bool
 	LabelUsedInside, LabelUsedOutside, BodyStartsWithFor, NoCounter bool
-	EquBetweenBlocks                                                bool
+	EquBetweenBlocks, LabelledBodyStartsWithBareFor, ChainedEqu     bool
 }
 
 type forGen struct {
@@ -23,6 +23,7 @@ type forGen struct {
 	equs     []string // EQUs defined textually before the item being generated (usable in FOR counts)
 	allEqus  []string // every EQU of the program (usable in operands, forward references included)
 	equVal   map[string]int64
+	equItems []rc.Item // all EQU definitions (for evaluating count templates textually)
 	nCounter int
 	nBlock   int
 	topLabs  []string // instruction labels outside blocks
@@ -93,16 +94,35 @@ func (g *forGen) instr(counters []string, labels []string) rc.Item {
 func (g *forGen) countExpr(v int64) []rc.Tok {
 	t := g.t
 	if len(g.equs) > 0 && rapid.IntRange(0, 2).Draw(t, "cequ") == 0 {
-		g.info.EquCount = true
-		e := rapid.SampledFrom(g.equs).Draw(t, "ce")
-		d := v - g.equVal[e]
-		switch {
-		case d == 0:
-			return rc.Toks(rc.ID(e))
-		case d > 0:
-			return rc.Toks(rc.ID(e), rc.OP("+"), rc.N(d))
+		e := rc.ID(rapid.SampledFrom(g.equs).Draw(t, "ce"))
+		var base []rc.Tok
+		// templates in which operator precedence reaches into a textually substituted EQU body
+		switch rapid.IntRange(0, 7).Draw(t, "ctmpl") {
+		case 0, 1:
+			base = rc.Toks(e)
+		case 2:
+			base = rc.Toks(e, rc.OP("*"), rc.N(2))
+		case 3:
+			base = rc.Toks(rc.N(2), rc.OP("*"), e)
+		case 4:
+			base = rc.Toks(rc.N(7), rc.OP("-"), e)
+		case 5:
+			base = rc.Toks(e, rc.OP("+"), e)
+		case 6:
+			base = rc.Toks(rc.LP(), e, rc.RP(), rc.OP("*"), rc.N(2))
 		default:
-			return rc.Toks(rc.ID(e), rc.OP("-"), rc.N(-d))
+			base = rc.Toks(e, rc.OP("%"), rc.N(3))
+		}
+		if val, err := rc.ValueOf(base, g.equItems, g.cfg.RC()); err == nil && val.IsInt64() {
+			g.info.EquCount = true
+			d := v - val.Int64()
+			switch {
+			case d > 0:
+				base = append(base, rc.OP("+"), rc.N(d))
+			case d < 0:
+				base = append(base, rc.OP("-"), rc.N(-d))
+			}
+			return base
 		}
 	}
 	if v >= 2 && rapid.IntRange(0, 4).Draw(t, "cexpr") == 0 {
@@ -181,9 +201,14 @@ func (g *forGen) forcedEmitting(depth int, counters []string, budget int) (rc.It
 	}
 	it := rc.Item{Kind: rc.KFor}
 	v := int64(rapid.IntRange(1, 3).Draw(t, "fcount"))
-	it.Counter = fmt.Sprintf("i%d", g.nCounter)
-	g.nCounter++
-	counters = append(append([]string(nil), counters...), it.Counter)
+	if rapid.IntRange(0, 2).Draw(t, "fctr") > 0 {
+		it.Counter = fmt.Sprintf("i%d", g.nCounter)
+		g.nCounter++
+		counters = append(append([]string(nil), counters...), it.Counter)
+	} else {
+		g.info.NoCounter = true
+		g.info.LabelledBodyStartsWithBareFor = true
+	}
 	it.Expr = g.countExpr(v)
 	it.Body = []rc.Item{g.instr(counters, nil)}
 	if rapid.Bool().Draw(t, "fsecond") {
@@ -198,25 +223,40 @@ func ForProgram(t *rapid.T, cfg AsmConfig) (rc.Program, ForInfo) {
 	var items []rc.Item
 	ne := rapid.IntRange(0, 3).Draw(t, "nequ")
 	var equItems []rc.Item
+	defer func() { g.equItems = nil }()
 	for k := 0; k < ne; k++ {
 		name := fmt.Sprintf("C%d", k)
 		a := int64(rapid.IntRange(0, 6).Draw(t, "ev"))
 		var body []rc.Tok
 		val := a
-		switch rapid.IntRange(0, 2).Draw(t, "ek") {
+		switch rapid.IntRange(0, 5).Draw(t, "ek") {
 		case 0:
 			body = rc.Toks(rc.N(a))
 		case 1:
 			b := int64(rapid.IntRange(0, 3).Draw(t, "ev2"))
 			body = rc.Toks(rc.N(a), rc.OP("+"), rc.N(b))
-			val = a + b
-		default:
+		case 2:
 			body = rc.Toks(rc.LP(), rc.N(a), rc.OP("*"), rc.N(2), rc.RP())
-			val = a * 2
+		default:
+			// chained: refers to an earlier EQU (placed no later than this one)
+			if k == 0 {
+				body = rc.Toks(rc.N(a), rc.OP("+"), rc.N(1))
+			} else {
+				g.info.ChainedEqu = true
+				prev := rc.ID(fmt.Sprintf("C%d", rapid.IntRange(0, k-1).Draw(t, "chain")))
+				switch rapid.IntRange(0, 2).Draw(t, "chk") {
+				case 0:
+					body = rc.Toks(prev, rc.OP("+"), rc.N(1))
+				case 1:
+					body = rc.Toks(prev, rc.OP("*"), rc.N(2))
+				default:
+					body = rc.Toks(rc.N(a), rc.OP("+"), prev)
+				}
+			}
 		}
+		_ = val
 		equItems = append(equItems, rc.Item{Kind: rc.KEqu, Labels: []string{name}, Expr: body})
 		g.allEqus = append(g.allEqus, name)
-		g.equVal[name] = val
 	}
 	nTop := rapid.IntRange(1, 6).Draw(t, "ntop")
 	// decide the shape first so that labels are known to every operand generator
@@ -243,12 +283,17 @@ func ForProgram(t *rapid.T, cfg AsmConfig) (rc.Program, ForInfo) {
 	}
 	// every EQU line is placed before some top-level item (0 = top of the file);
 	// a FOR count may only use EQUs placed before its block
+	g.equItems = equItems
 	equPos := make([]int, len(equItems))
 	for k := range equItems {
 		if rapid.Bool().Draw(t, "equtop") {
 			equPos[k] = 0
 		} else {
 			equPos[k] = rapid.IntRange(0, nTop-1).Draw(t, "equpos")
+		}
+		// an EQU chain may only refer backwards in the text: positions are non-decreasing
+		if k > 0 && equPos[k] < equPos[k-1] {
+			equPos[k] = equPos[k-1]
 		}
 	}
 	budget := 40
